@@ -865,6 +865,9 @@ class Constraints:
                     f" you can override this class and custom it"
                 )
             validators.append((key, val, func))
+        # lax constraints transform the value: apply them first (keeping their relative order)
+        # so that every strict constraint is validated against the value that is actually returned
+        validators.sort(key=lambda item: item[0] not in constraint_mode)
         return validators
 
     @classmethod
